@@ -687,6 +687,18 @@ class Engine:
                 return [(("adt", RES_, "Ok", (("adt", OPT_, "Some", (v[3][0][3][0],)),)), None)]
             if v[0] == "adt" and v[2] == "Some" and v[3] and v[3][0][0] == "adt" and v[3][0][2] == "Err":
                 return [(("adt", RES_, "Err", (v[3][0][3][0],)), None)]
+        if re.search(r"ops::(RangeInclusive|Range)::<.*>::contains(::<.*>)?$|ops::RangeBounds<.*>>::contains(::<.*>)?$", nm) and len(args) == 2:
+            # `(lo..=hi).contains(&x)` is `lo <= x && x <= hi` (`lo..hi`: `x < hi`): analysed as the two comparisons it abbreviates
+            r = self.deref_val(path, args[0]) if args[0][0] == "ref" else args[0]
+            x = self.deref_val(path, args[1]) if args[1][0] == "ref" else args[1]
+            lo = hi = None
+            if r[0] == "app" and re.search(r"RangeInclusive::<.*>::new$", str(r[1])) and len(r[2]) == 2:
+                lo, hi, hop = r[2][0], r[2][1], "Le"
+            elif r[0] == "adt" and r[1].endswith("ops::Range") and len(r[3]) == 2:
+                lo, hi, hop = r[3][0], r[3][1], "Lt"
+            if lo is not None:
+                c1, c2 = self.binop("Le", lo, x), self.binop(hop, x, hi)
+                return [(("bool", False), [(c1, False)]), (("bool", False), [(c1, True), (c2, False)]), (("bool", True), [(c1, True), (c2, True)])]
         if re.search(r"mem::replace::<.*>$|mem::replace$", nm) and len(args) == 2 and args[0][0] == "ref":
             loc = args[0][1]
             old_v = self.read_loc(path, loc)
@@ -1462,6 +1474,27 @@ class Engine:
             return outs
         if k == "call":
             args = [self.operand(path, a) for a in t["args"]]
+            if not t.get("callee") and isinstance(t.get("func"), dict) and t["func"].get("k") in ("copy", "move"):
+                # a call through a function pointer whose value is known (a fn item or a non-capturing closure coerced to `fn`):
+                # analysed as the direct call it stands for
+                try:
+                    fv = self.operand(path, t["func"])
+                    n_ = 0
+                    while fv[0] == "ref" and n_ < 4:
+                        fv = self.deref_val(path, fv)
+                        n_ += 1
+                except Exception:
+                    fv = ("unknown",)
+                if fv[0] == "closure":
+                    t = dict(t)
+                    t["callee_full"] = t["callee_path"] = "<fn-pointer as std::ops::Fn<(..)>>::call"
+                    args = [fv, ("tuple", tuple(args))]
+                elif fv[0] == "fn":
+                    t = dict(t)
+                    t["callee"] = fv[1]
+                    t["callee_full"] = t["callee_path"] = (self.facts.fns[fv[1]].name if self.facts is not None and fv[1] in self.facts.fns else (fv[2] or fv[1]))
+                    if self.facts is not None and fv[1] in self.facts.fns:
+                        t["resolved"], t["resolved_kind"], t["resolved_path"] = fv[1], "Item", t["callee_full"]
             name = M.call_name(t)
             snap0 = tuple(self.snapshot(path, a) for a in args)
             outcomes = None
